@@ -76,6 +76,9 @@ theorem statusInv_stable : Stable StatusInv where
       (by intro n; simp)
   argv s i v h := statusInv_of_fields h rfl rfl
   argc s n h := statusInv_of_fields h rfl rfl
+  close s f h := statusInv_of_fields h rfl rfl
+  enter s h := statusInv_of_fields h rfl rfl
+  leave s h := statusInv_of_fields h rfl rfl
   take s r s1 h hn := by
     have hf := nextLine_frame s
     rw [hn] at hf
